@@ -261,6 +261,16 @@ func checkCloneTurnover(exec *genetics.SequentialPopulationEpochExecutor, ctx co
 	keyOf := func(g *genetics.Genome) string {
 		sp := Snapshot(g)
 		sp.Id = 0
+		// mutation numbers are not part of the identity: a super-champion offspring is sent through the weight mutation with
+		// power 0, which leaves the weights and rewrites the mutation numbers to mirror them, so it can equal - up to those
+		// numbers - an old organism made the same way one generation earlier (found by the thorough tier and, independently,
+		// by the audit: the offspring was attributed to that old organism)
+		for i := range sp.Genes {
+			sp.Genes[i].Mut = 0
+		}
+		for i := range sp.Modules {
+			sp.Modules[i].Mut = 0
+		}
 		return fmt.Sprintf("%+v", sp)
 	}
 	owner := map[string]*genetics.Species{}
@@ -436,8 +446,9 @@ func checkParentSelection(species []*genetics.Species, pre map[*genetics.Organis
 			want = n
 		}
 		var parents, rest []float64
-		negative := false
+		negative, hasNeg := false, false
 		for _, o := range all {
+			hasNeg = hasNeg || pre[o].raw < 0
 			// (values at the bottom of the range lose their order in the adjustment - several of them round to the same multiple of
 			// 5e-324 - and are judged by the adjusted values as well)
 			negative = negative || pre[o].raw < 0 || (pre[o].raw != 0 && pre[o].raw < 1e-290)
@@ -464,7 +475,11 @@ func checkParentSelection(species []*genetics.Species, pre map[*genetics.Organis
 		}
 		sort.Float64s(parents)
 		sort.Float64s(rest)
-		if len(rest) > 0 && parents[0] < rest[len(rest)-1] {
+		if hasNeg {
+			// the statement does not say how a negative value ranks against a small positive one (by the raw value, or by what the
+			// adjustment makes of it): with a negative member only the number of parents is judged
+			rec.Class("species with a negative member (parent ranking not judged)")
+		} else if len(rest) > 0 && parents[0] < rest[len(rest)-1] {
 			return fmt.Errorf("species %d: an organism of fitness %v was kept as a parent while one of fitness %v was not", sp.Id, parents[0], rest[len(rest)-1])
 		}
 		if len(rest) > 0 {
